@@ -108,7 +108,19 @@ fn check_pair(src: &Sources, base: &Value, via_cli: bool, st: &mut Stats) -> Vec
         let _ = std::fs::write(dir.path.join("base.yaml"), &base_yaml);
         // every third run regenerates in place: the base is the target of the previous generation
         let in_place = hash64(&base_yaml) % 3 == 0;
-        let r = if in_place {
+        let conf_other_base = !in_place && hash64(&base_yaml) % 3 == 1;
+        let r = if conf_other_base {
+            st.inc("cli_runs_with_base_option_over_configuration_file");
+            let _ = std::fs::write(
+                dir.path.join("other-base.yaml"),
+                "openapi: 3.0.3\ninfo:\n  title: NOT THE BASE\n  version: 9.9.9\npaths: {}\ntags:\n  - name: not-the-base\n",
+            );
+            let _ = std::fs::write(
+                dir.path.join("oal.toml"),
+                format!("[api]\nmain = \"{}\"\ntarget = \"out.yaml\"\nbase = \"other-base.yaml\"\n", src.files[0].0),
+            );
+            crate::drive::cli::run_cli_conf_opts(&dir.path, "oal.toml", &["-b", "base.yaml"])
+        } else if in_place {
             st.inc("cli_runs_with_base_and_target_the_same_file");
             let _ = std::fs::write(dir.path.join("out.yaml"), &base_yaml);
             run_cli(&dir.path, &src.files[0].0, "out.yaml", Some("out.yaml"))
